@@ -283,6 +283,53 @@ func checkC07(c *mc.Ctx) {
 		c.Ev.AddScenario(mc.Scenario{Name: "pat-repeats-merges", SpaceSize: int64(len(orders)), Executed: pd, Exhaustive: pd == int64(len(orders)), Bound: fmt.Sprintf("all merges of 3 identical PAT packets, two multi-packet PMT units on one PID and a multi-packet PES, lengths %v", lens)})
 	}
 
+	// PIDs that differ from a PMT PID in a single bit (and from each other): what the Demuxer learns about
+	// one PID (it carries PMTs) must not leak to its neighbours in any index structure
+	{
+		var n int64
+		for _, pmtPID := range []uint16{0x0234, 0x1fc0} {
+			for k := 0; k < 13; k++ {
+				esPID := pmtPID ^ (1 << uint(k))
+				if esPID < 0x20 || esPID == 0x1fff {
+					continue
+				}
+				ccs := []uint8{1, 2, 3}
+				pat := modelPAT(1, pmtPID)
+				pmt := modelPMT(1, esPID, 1)
+				pmt.ElementaryStreams[0].ElementaryPID = esPID
+				uPMT := PSIUnit(pmtPID, 0, [][]byte{SecPMT(pmt, ref.SecHdr{CNI: true})}, []ExpData{{Kind: "PMT", Table: pmt}})
+				e1 := PESUnit(esPID, 0xe0, pesPayload(101, 200, c.Seed), 1, false)
+				e2 := PESUnit(esPID, 0xe0, pesPayload(102, 90, c.Seed), 2, false)
+				e3 := PESUnit(esPID, 0xe0, pesPayload(103, 10, c.Seed), 3, false)
+				lists := [][]*ref.Pkt{
+					Packetize(PSIUnit(0, 0, [][]byte{SecPAT(pat, ref.SecHdr{CNI: true})}, nil), nil, &ccs[0], true),
+					Packetize(uPMT, nil, &ccs[1], true),
+					append(append(Packetize(e1, nil, &ccs[2], false), Packetize(e2, nil, &ccs[2], false)...), Packetize(e3, nil, &ccs[2], false)...),
+				}
+				lens := []int{len(lists[0]), len(lists[1]), len(lists[2])}
+				mc.Merges(lens, func(o []int) bool {
+					st := BuildStream("pid-neighbours", lists, append([]int{}, o...), nil)
+					out := DemuxBytes(st.Bytes)
+					got := byPID(out.Data)[esPID]
+					ok := len(got) == 3 && out.Panic == nil && len(out.Errs) == 0
+					for i, e := range []ExpData{e1.Exp[0], e2.Exp[0], e3.Exp[0]} {
+						if ok {
+							ok, _ = e.Matches(got[i])
+						}
+					}
+					if !ok {
+						c.Rep.Report("pid-neighbour-of-a-pmt-pid-affected", map[string]any{"kind": "stream", "what": fmt.Sprintf("PMT PID %#x, elementary PID %#x, order %v", pmtPID, esPID, o), "bytes": mc.Hex(st.Bytes), "message": fmt.Sprintf("PID %#x carries 3 PES whatever the position of the PAT/PMT; %d data delivered, errors %v", esPID, len(got), errStrings(out.Errs))})
+					}
+					n++
+					return true
+				})
+			}
+		}
+		c.Ev.DistinctAdd(n)
+		c.Ev.Class("pid-neighbours", n)
+		c.Ev.AddScenario(mc.Scenario{Name: "pid-neighbours-merges", SpaceSize: n, Executed: n, Exhaustive: true, Bound: "2 PMT PIDs x every elementary PID at Hamming distance 1 x all merges of PAT, PMT and three PES units"})
+	}
+
 	// insertions: null, adaptation-only of a used PID, TEI packet of a used PID, at every position of
 	// several base schedules
 	bases := [][]int{roundRobin(l.lists)}
